@@ -1939,7 +1939,8 @@ class TestGraph(object):
         pre_node = TestGraph.parse_node_from_object(
             test_node.objects[0], "all..noop", prefix="0", params=setup_dict
         )
-        pre_node.results = list(test_node.results)
+        previous_results = list(test_node.results)
+        pre_node.results = list(previous_results)
         pre_node.started_worker = worker
         # the object creation is already in progress so account for it as a running try
         pending_result = {"name": test_node.params["name"], "status": "UNKNOWN"}
@@ -1954,6 +1955,8 @@ class TestGraph(object):
                 object_vm,
                 object_image,
             )
+            # a failed configuration is a failed try of the object creation
+            test_node.results += pre_node.results[len(previous_results) :]
             return status
 
         logging.info("Installing virtual machine %s", test_object.suffix)
